@@ -14,7 +14,24 @@ import (
 	"github.com/lindb/lindb/series/metric"
 )
 
-func rowFromFlat(m flatMetricsV1.Metric) *Row {
+// curRec is the recorder of this child (for observations made deep inside helpers).
+var curRec *rec
+
+// rowFromFlat reads a row through the flat accessors. A BrokerRow that was never filled (or holds garbage) makes the
+// accessors panic: that is recorded as a violation of its own and a placeholder row is returned.
+func rowFromFlat(m flatMetricsV1.Metric) (out *Row) {
+	defer func() {
+		if p := recover(); p != nil {
+			if curRec != nil {
+				curRec.Violation("C16/batch-holds-unreadable-row", fmt.Sprintf("a row of a BrokerBatchRows cannot be read (empty or corrupt flat buffer): %v", p), nil)
+			}
+			out = &Row{Name: "<unreadable row>"}
+		}
+	}()
+	return rowFromFlatUnsafe(m)
+}
+
+func rowFromFlatUnsafe(m flatMetricsV1.Metric) *Row {
 	r := &Row{
 		NS:       string(m.Namespace()),
 		Name:     string(m.Name()),
@@ -147,8 +164,6 @@ func (d *storageDecoder) decodeBlock(block []byte) ([]*Row, string) {
 	var out []*Row
 	for _, sr := range d.batch.Rows() {
 		r, problem := rowFromStorage(sr)
-		sr.Done() // Unmarshal adds two references for the storage write path
-		sr.Done()
 		if problem != "" {
 			return out, problem
 		}
